@@ -12,7 +12,8 @@
     form), and self-containedness of the inlined schema relative to the table. *)
 From Coq Require Import String.
 From FA Require Import model.Base model.Json model.Parse model.SchemaSpec model.Inline model.Canon model.Piecewise
-     proofs.JsonProofs proofs.ParseProofs proofs.CanonProofs proofs.InlineProofs proofs.PiecewiseProofs.
+     model.Value model.Schema model.Codec model.Bridge
+     proofs.JsonProofs proofs.ParseProofs proofs.CanonProofs proofs.InlineProofs proofs.PiecewiseProofs proofs.CodecProofs proofs.BridgeProofs.
 Open Scope string_scope.
 
 (** parsing an already parsed (marked) schema returns it unchanged and copies its embedded
@@ -65,6 +66,36 @@ Theorem C12_parsed_selfcontained : forall f j p t,
   unmarked j = true -> parse_schema f j [] = POk (p, t) -> inline t p = POk p /\ closed p = true.
 Proof. intros f j p t U H. split; [eapply inline_id_on_parsed; eauto|eapply parsed_is_closed; eauto]. Qed.
 Print Assumptions C12_parsed_selfcontained.
+
+(** ---- C12_ops_respect_equiv for the binary decoder, one inlining step ----
+    [sim k e s1 s2]: whatever decodes under s1 decodes under s2 with k more units of fuel.
+    A reference and its definition in the table simulate each other, and the relation is a
+    congruence for every schema context: so a schema that refers to a type by name and the same
+    schema with that reference replaced by the definition decode identically (given the table
+    contains the definition).  The other operations (validate, JSON, generate) are compared by the
+    correspondence only. *)
+Theorem C12_ref_is_its_definition : forall e n d,
+  lookup e n = Some d -> sim 0 e (SRef n) d /\ sim 1 e d (SRef n).
+Proof. exact sim_ref_def. Qed.
+Print Assumptions C12_ref_is_its_definition.
+
+Theorem C12_equiv_congruence : forall k e,
+  (forall s1 s2, sim k e s1 s2 -> sim k e (SArray s1) (SArray s2)) /\
+  (forall s1 s2, sim k e s1 s2 -> sim k e (SMap s1) (SMap s2)) /\
+  (forall lt s1 s2, sim k e s1 s2 -> sim k e (SAnnot lt s1) (SAnnot lt s2)) /\
+  (forall l1 l2, Forall2 (sim k e) l1 l2 -> sim k e (SUnion l1) (SUnion l2)) /\
+  (forall n al fs1 fs2, Forall2 (fun a b => sim k e (ftype a) (ftype b)) fs1 fs2 ->
+                        sim k e (SRecord n al fs1) (SRecord n al fs2)).
+Proof.
+  intros k e. repeat split.
+  - apply sim_array. - apply sim_map. - intros lt. apply sim_annot. - apply sim_union. - intros n al. apply sim_record.
+Qed.
+Print Assumptions C12_equiv_congruence.
+
+Theorem C12_equiv_refl_weaken : forall e s k k' s1 s2,
+  sim 0 e s s /\ ((k <= k')%nat -> sim k e s1 s2 -> sim k' e s1 s2).
+Proof. intros. split; [apply sim_refl|apply sim_weaken]. Qed.
+Print Assumptions C12_equiv_refl_weaken.
 
 (** ---- evaluated instances (closed boolean computations) ---- *)
 Definition ex_parent_inline : json :=
